@@ -139,7 +139,10 @@ def check_global_func_def(
     assert all(inp.name is not None for inp in ty.inputs)
 
     check_invalid_under_dagger(func_def, ty.unitary_flags)
-    cfg = CFGBuilder().build(func_def.body, returns_none, globals, ty.unitary_flags)
+    # A function that consists only of a docstring has no statements left. Give the
+    # builder a `pass` so that a missing return statement can be reported somewhere.
+    body = func_def.body or [with_loc(func_def, ast.Pass())]
+    cfg = CFGBuilder().build(body, returns_none, globals, ty.unitary_flags)
     inputs = [
         Variable(cast(str, inp.name), inp.ty, loc, inp.flags, is_func_input=True)
         for inp, loc in zip(ty.inputs, args, strict=True)
